@@ -188,6 +188,18 @@ CLAIMED["C04"] = dict(
     technique="contract-based deductive verification: accessor contracts + refinement-predicate obligations at character sources over the real AST, z3; AST dataflow at constructor sites",
     design="DESIGN.md §3 C04")
 
+CLAIMED["C02"] = dict(
+    text="GIVEN the parsed tree / cell grid (bytes -> tree parsing by third-party parsers is out of reach), the library's own walkers are "
+         "proved to emit exactly the text the statement prescribes: the recursive ODF text walker equals a spec function (modular recursion, "
+         "loop invariant over a symbolic-length child list), the DOCX paragraph / body walk, the HTML node walk, slide text assembly and the "
+         "XLS sheet formatter against spec functions using a whitespace-erasing homomorphism. 137 further obligations (table text, ODT/ODG "
+         "full text, ODS/XLSX formatters, PPTX paragraphs, 35 document features per format through the public entry points) are only BOUNDED "
+         "checks and are not counted. 13 recorded known findings (e.g. DOCX tab/break runs merge neighbours, nested lists/tables duplicated).",
+    note="Assumed: ElementTree model (validated boundedly against xml.etree), str / regex / join models, w:tab/br/cr are empty elements. "
+         "NOT decided: fidelity of zip / XML / OLE / PDF parsing, RTF stripping, PPT record walk, PDF text reconstruction.",
+    technique="contract-based deductive verification: walkers = spec functions over an abstract tree (modular recursion, loop invariants), z3; bounded enumeration for the rest (labelled)",
+    design="DESIGN.md §3 C02")
+
 PENDING = {}
 
 ALL = [f"C{i:02d}" for i in range(1, 21)]
